@@ -76,7 +76,7 @@ class Tap:
 
 
 class World:
-    def __init__(self, classic=False):
+    def __init__(self, classic=False, aux=False):
         from bumble.controller import Controller
         from bumble.device import Device
         from bumble.hci import Address
@@ -87,23 +87,25 @@ class World:
         self.loop = asyncio.get_running_loop()
         self.vt = [self.loop.time()]
         self.loop.time = lambda: self.vt[0]       # virtual clock: timers never wait wall-clock
-        self.lost = [False, False]
+        n = 3 if aux else 2
+        self.n = n
+        self.lost = [False] * n
         self.counting = False
         self.count = 0
         self.cut_at = None
         self.cut = None
         self.cut_fired = False
         self.inline = False
-        self.pre = [None, None]                   # registry snapshot just before the fan-out
-        self.pre_waiters = [None, None]
-        self.post = [None, None]                  # ... and right after it, before anything else runs
+        self.pre = [None] * n                     # registry snapshot just before the fan-out
+        self.pre_waiters = [None] * n
+        self.post = [None] * n                    # ... and right after it, before anything else runs
         self.waiters = []                         # dicts: name, side, kind, task
         self.probes = {}                          # family -> is its release mechanism armed?
         self.link = LocalLink()
-        addrs = ['F0:F0:F0:F0:F0:F0', 'F1:F1:F1:F1:F1:F1']
-        self.controllers = [Controller(f'C{i}', link=self.link, public_address=addrs[i]) for i in range(2)]
+        addrs = ['F0:F0:F0:F0:F0:F0', 'F1:F1:F1:F1:F1:F1', 'F2:F2:F2:F2:F2:F2']
+        self.controllers = [Controller(f'C{i}', link=self.link, public_address=addrs[i]) for i in range(n)]
         self.devices = []
-        for i in range(2):
+        for i in range(n):
             c = self.controllers[i]
             host = Host()
             host.hci_sink = AsyncPipeSink(Tap(self, i, 'h2c', c))
@@ -112,8 +114,10 @@ class World:
             d.classic_enabled = classic
             self.devices.append(d)
         self.classic = classic
-        self.conns = [None, None]
-        self.handle = [None, None]
+        self.aux = aux
+        self.conns = [None] * n                   # the connection under test, as seen by sides 0 and 1
+        self.handle = [None] * n
+        self.aux_conns = [None, None]             # second link of stack 0 (to stack 2): [side 0's, side 2's]
 
     # ---- deterministic loop control
     async def settle(self):
@@ -156,11 +160,12 @@ class World:
     # ---- set-up
     async def setup(self):
         from bumble.core import PhysicalTransport
-        d0, d1 = self.devices
-        await self.wait(d0.power_on())
-        await self.wait(d1.power_on())
-        for i in range(2):
-            self.devices[i].on('connection', lambda c, i=i: self.conns.__setitem__(i, c))
+        d0, d1 = self.devices[0], self.devices[1]
+        for d in self.devices:
+            await self.wait(d.power_on())
+        got = {}
+        for i in range(self.n):
+            self.devices[i].on('connection', lambda c, i=i: got.__setitem__(i, c))
         if self.classic:
             await self.wait(asyncio.gather(
                 d0.connect(d1.public_address, transport=PhysicalTransport.BR_EDR),
@@ -169,9 +174,20 @@ class World:
             await self.wait(d1.start_advertising(advertising_interval_min=1.0))
             await self.wait(d0.connect(d1.random_address))
         await self.settle()
-        if self.conns[0] is None or self.conns[1] is None:
+        if got.get(0) is None or got.get(1) is None:
             raise Budget('connection not established')
-        self.handle = [self.conns[0].handle, self.conns[1].handle]
+        self.conns[0], self.conns[1] = got[0], got[1]
+        self.handle[0], self.handle[1] = got[0].handle, got[1].handle
+        if self.aux:
+            d2 = self.devices[2]
+            await self.wait(d2.start_advertising(advertising_interval_min=1.0))
+            self.aux_conns[0] = await self.wait(d0.connect(d2.random_address))
+            await self.settle()
+            if got.get(2) is None:
+                raise Budget('second connection not established')
+            self.aux_conns[1] = got[2]
+            self.handle[2] = -1          # stack 2 never sees the connection under test
+            await prep_aux(self)
 
     def spawn(self, name, side, kind, coro):
         t = asyncio.ensure_future(coro)
@@ -295,6 +311,7 @@ def snapshot(w, side):
     s['l2cap.ChannelManager.channels'] = hk(cm.channels)
     s['l2cap.ChannelManager.le_coc_channels'] = hk(cm.le_coc_channels)
     s['l2cap.ChannelManager.pending_credit_based_connections'] = hk(cm.pending_credit_based_connections)
+    s['l2cap.ChannelManager.le_coc_requests'] = hk(k for k, v in cm.le_coc_requests.items() if isinstance(k, int))
     if EXTRA_ATTRS:
         objs = {('controller', 'Controller'): [c], ('host', 'Host'): [h],
                 ('host', 'DataPacketQueue'): [q for q in (h.le_acl_packet_queue, h.acl_packet_queue) if q],
@@ -356,6 +373,59 @@ def _fut_armed(get):
             return False
         return f is not None and not f.done()
     return probe
+
+
+# ============================================================================= second link
+PSM_AUX = 0x90
+
+
+async def prep_aux(w):
+    """Gives the second link of stack 0 (to stack 2) state in every layer: a pairing
+    session, a subscription of stack 2 to a characteristic of stack 0, an open LE
+    credit-based channel, a discovered GATT database of stack 2."""
+    from bumble import l2cap
+    from bumble.gatt import Characteristic, Service
+    from bumble.pairing import PairingConfig, PairingDelegate
+    P = Characteristic.Properties
+    a0, a2 = w.aux_conns
+    d0, d2 = w.devices[0], w.devices[2]
+    ch0 = Characteristic('A0A0', P.READ | P.INDICATE | P.NOTIFY, Characteristic.Permissions.READABLE, b'zero')
+    d0.add_service(Service('A000', [ch0]))
+    ch2 = Characteristic('A2A2', P.READ | P.WRITE, Characteristic.Permissions.READABLE | Characteristic.Permissions.WRITEABLE,
+                         b'two')
+    svc2 = Service('A200', [ch2])
+    d2.add_service(svc2)
+    for d in (d0, d2):
+        d.pairing_config_factory = lambda connection: PairingConfig(
+            sc=True, mitm=False, bonding=True, delegate=PairingDelegate())
+    await w.wait(a0.pair(), 'aux pair')
+    # stack 2 subscribes to stack 0's characteristic
+    c2 = a2.gatt_client
+    await w.wait(c2.discover_services(), 'aux discover')
+    sp = c2.get_services_by_uuid(Service('A000', []).uuid)[0]
+    await w.wait(sp.discover_characteristics(), 'aux discover characteristics')
+    cp = sp.get_characteristics_by_uuid(ch0.uuid)[0]
+    await w.wait(cp.discover_descriptors(), 'aux discover descriptors')
+    await w.wait(cp.subscribe(lambda v: None, prefer_notify=False), 'aux subscribe')
+    # stack 0 discovers stack 2's database
+    c0 = a0.gatt_client
+    await w.wait(c0.discover_services(), 'aux discover 2')
+    sp2 = c0.get_services_by_uuid(svc2.uuid)[0]
+    await w.wait(sp2.discover_characteristics(), 'aux discover characteristics 2')
+    w.aux_cp = sp2.get_characteristics_by_uuid(ch2.uuid)[0]
+    # an open channel
+    d2.create_l2cap_server(spec=l2cap.LeCreditBasedChannelSpec(psm=PSM_AUX),
+                           handler=lambda channel: setattr(channel, 'sink', lambda data: None))
+    w.aux_chan = await w.wait(a0.create_l2cap_channel(spec=l2cap.LeCreditBasedChannelSpec(PSM_AUX)), 'aux coc')
+    await w.settle()
+
+
+async def aux_still_works(w):
+    """the other link carries a GATT read and 500 bytes on its channel"""
+    value = await w.aux_cp.read_value()
+    w.aux_chan.write(bytes(500))
+    await w.aux_chan.drain()
+    return value
 
 
 # ============================================================================= procedures
@@ -632,12 +702,21 @@ async def _rfcomm_start(w):
 CUTS = [('disc', 0), ('disc', 1), ('loss', 0), ('loss', 1)]
 # uncut run does not end with a result: Read RSSI is rejected by the virtual controller; the user never answers
 OPEN_ENDED = ('hci_rssi', 'smp_pair_prompt')
+# not run in the two-link variant (long; the second link adds nothing new to them)
+NO_AUX = ('gatt_flood', 'coc_drain', 'gatt_discover')
 
 
 # ============================================================================= one case
+def _only(snap, h):
+    return {reg: [key for key in keys if key[0] == h] for reg, keys in snap.items()}
+
+
 async def _run_case(proc, cut, k, inline=False):
-    classic, prepare, start = PROCEDURES[proc]
-    w = World(classic=classic)
+    aux = proc.endswith('+aux')          # "<procedure>+aux": stack 0 also has a second, busy link to a third stack
+    base_proc = proc[:-4] if aux else proc
+    classic, prepare, start = PROCEDURES[base_proc]
+    w = World(classic=classic, aux=aux)
+    sides = range(w.n)
     res = {'proc': proc, 'cut': list(cut) if cut else None, 'k': k, 'inline': inline}
     try:
         await w.setup()
@@ -647,7 +726,9 @@ async def _run_case(proc, cut, k, inline=False):
         res['setup_error'] = str(e)
         return res
     res['handle'] = list(w.handle)
-    res['before'] = [snapshot(w, 0), snapshot(w, 1)]
+    res['before'] = [snapshot(w, i) for i in sides]
+    if aux:
+        res['aux_handle'] = [w.aux_conns[0].handle, w.aux_conns[1].handle]
     w.cut = tuple(cut) if cut else None
     w.cut_at = k if cut else None
     w.inline = inline
@@ -660,7 +741,7 @@ async def _run_case(proc, cut, k, inline=False):
         await w.settle()
         for x in w.waiters:
             x['prompt'] = outcome(x['task'])
-        res['quiet1'] = [snapshot(w, 0), snapshot(w, 1)]
+        res['quiet1'] = [snapshot(w, i) for i in sides]
         await w.run_timers()
     except Budget as e:
         res['budget'] = str(e)
@@ -669,7 +750,7 @@ async def _run_case(proc, cut, k, inline=False):
     res['pre'] = w.pre
     res['pre_waiters'] = w.pre_waiters
     res['post'] = w.post
-    res['final'] = [snapshot(w, 0), snapshot(w, 1)]
+    res['final'] = [snapshot(w, i) for i in sides]
     res['waiters'] = [{'name': x['name'], 'side': x['side'], 'kind': x['kind'],
                        'prompt': x['prompt'] or outcome(x['task']), 'final': outcome(x['task'])}
                       for x in w.waiters]
@@ -679,6 +760,19 @@ async def _run_case(proc, cut, k, inline=False):
         getattr(t.get_coro(), '__qualname__', repr(t.get_coro()))
         for t in asyncio.all_tasks()
         if t is not asyncio.current_task() and not t.done() and t not in mine and t not in baseline)
+    if aux and 'budget' not in res and not (cut and cut[0] == 'loss' and cut[1] == 0):
+        # the second link must be unaffected: same state, and it still carries traffic
+        t = asyncio.ensure_future(aux_still_works(w))
+        try:
+            await w.settle()
+            if not t.done():
+                await w.run_timers()
+        except Budget as e:
+            res['budget'] = str(e)
+        res['aux_works'] = outcome(t)
+        res['aux_final'] = [snapshot(w, i) for i in sides]
+        if not t.done():
+            t.cancel()
     for x in w.waiters:
         if not x['task'].done():
             x['task'].cancel()
@@ -723,11 +817,25 @@ def closed_sides(cut):
     return [0, 1] if kind == 'disc' else [side]
 
 
+def closed_handles(res, side):
+    """the handles stack `side` must have forgotten"""
+    cut = res['cut']
+    out = []
+    if cut is None or not res.get('cut_fired'):
+        return out
+    if side in closed_sides(cut) and side < 2:
+        out.append(res['handle'][side])
+    if 'aux_handle' in res and cut[0] == 'loss' and cut[1] == 0 and side == 0:
+        out.append(res['aux_handle'][0])       # its transport is gone: both links
+    return out
+
+
 def oracle(res):
     """Property C16 over implementation observables.  Returns a list of (signature, text)."""
     bad = []
     proc, cut, k = res['proc'], res['cut'], res['k']
     tag = f"{proc}/{cut[0]}{cut[1]}@{k}" if cut else f"{proc}/uncut"
+    nsides = len(res['final'])
     if 'budget' in res:
         bad.append((f'{tag}:budget', f'{tag} k={k}: {res["budget"]} (the stack keeps running after the cut)'))
     for x in res['waiters']:
@@ -737,25 +845,23 @@ def oracle(res):
                 bad.append((f'{tag}:waiter:{x["name"]}',
                             f'{tag} k={k}: awaited call "{x["name"]}" on side {x["side"]} is STILL PENDING after the '
                             f'connection is gone and every timer has fired'))
-    for side in closed_sides(cut):
-        if not res['cut_fired']:
-            continue
-        h = res['handle'][side]
+    for side in range(nsides):
         final = res['final'][side]
-        for reg, keys in sorted(final.items()):
-            if res['cut'][0] == 'loss' and reg.startswith('controller.'):
-                continue  # the controller cannot be told that its host is gone
-            stale = [key for key in keys if key[0] == h]
-            if stale:
-                bad.append((f'{tag}:stale:{reg}',
-                            f'{tag} k={k}: side {side} registry {reg} still holds {stale} after handle {h} closed'))
-    if cut is not None and cut[0] == 'disc' and res['cut_fired']:
+        for h in closed_handles(res, side):
+            for reg, keys in sorted(final.items()):
+                if res['cut'][0] == 'loss' and reg.startswith('controller.'):
+                    continue  # the controller cannot be told that its host is gone
+                stale = [key for key in keys if key[0] == h]
+                if stale:
+                    bad.append((f'{tag}:stale:{reg}',
+                                f'{tag} k={k}: side {side} registry {reg} still holds {stale} after handle {h} closed'))
+    if cut is not None and cut[0] == 'disc' and res['cut_fired'] and 'aux_handle' not in res:
         # both stacks have closed the connection: nothing the stacks spawned for it may still be waiting
         for name in res.get('internal_tasks_left', []):
             bad.append((f'{tag}:internal:{name}',
                         f'{tag} k={k}: task {name} spawned by the stack is STILL PENDING after the connection is '
                         f'gone on both sides and every timer has fired'))
-    for side in (0, 1):
+    for side in range(nsides):
         final = res['final'][side]
         ctl = sorted(final['controller.Controller.le_connections'] + final['controller.Controller.classic_connections'])
         host = final['host.Host.connections']
@@ -764,6 +870,21 @@ def oracle(res):
         if host != dev or (not lost and ctl != host):
             bad.append((f'{tag}:agree',
                         f'{tag} k={k}: side {side} layers disagree: controller {ctl} host {host} device {dev}'))
+    if 'aux_handle' in res and 'aux_works' in res:
+        # links are independent: the other link of stack 0 keeps its state and still works
+        for side, h in ((0, res['aux_handle'][0]), (2, res['aux_handle'][1])):
+            was, now = _only(res['before'][side], h), _only(res['final'][side], h)
+            for reg in sorted(was):
+                if reg.startswith('host.DataPacketQueue._packets'):
+                    continue
+                if was[reg] != now.get(reg):
+                    bad.append((f'{tag}:other-link:{reg}',
+                                f'{tag} k={k}: side {side} registry {reg} of the OTHER link (handle {h}) changed from '
+                                f'{was[reg]} to {now.get(reg)} when handle {res["handle"][0]} was torn down'))
+        if res['aux_works'] != 'result':
+            bad.append((f'{tag}:other-link:traffic',
+                        f'{tag} k={k}: after the teardown the other link of stack 0 no longer carries a GATT read '
+                        f'and an L2CAP write ({res["aux_works"]})'))
     return bad
 
 
@@ -803,14 +924,15 @@ def model_ops(res, side):
     calls were pending.  Returns (coq op list text, [(waiter name, model id)])."""
     h = res['handle'][side]
     pre = res['pre'][side]
-    ops = [f'Establish {h}', 'DeliverC2H']
+    handles = sorted({key[0] for key in pre['device.Device.connections']} | {h})
+    ops = []
+    for hh in handles:
+        ops += [f'Establish {hh}', 'DeliverC2H']
     seen = set()
     for reg in sorted(pre):
         if reg in TABLE_REGS:
             continue
         for key in pre[reg]:
-            if key[0] != h:
-                continue
             name = model_reg_name(reg)
             if (name, key[0], key[1]) in seen:
                 continue
@@ -837,10 +959,11 @@ def model_ops(res, side):
                  pre['controller.Controller.classic_connections'])
     if not in_ctl:
         ops.append(f'PeerDisc {h}')       # the controller has already dropped it, the event is on its way
+    late = [f'Resume {wid}' for name, wid in ids]      # tasks that were about to run do run
     if res['cut'][0] == 'loss':
-        ops += ['Loss', 'Tick']
+        ops += ['Loss'] + late + ['Tick']
     else:
-        ops += [f'PeerDisc {h}'] + ['DeliverH2C', 'DeliverC2H'] * 6 + ['Tick']
+        ops += [f'PeerDisc {h}'] + ['DeliverH2C', 'DeliverC2H'] * 6 + late + ['Tick']
     return '[' + '; '.join(ops) + ']', ids
 
 
@@ -858,13 +981,14 @@ def wclass_impl(x):
     return 'timer' if x['final'] != 'pending' else 'never'
 
 
-def impl_regs(snap, h):
+def impl_regs(snap, h=None):
+    """entries of the non-table registries (of every connection of the stack; of one when h is given)"""
     out = set()
     for reg, keys in snap.items():
         if reg in TABLE_REGS:
             continue
         for key in keys:
-            if key[0] == h:
+            if h is None or key[0] == h:
                 out.add((model_reg_name(reg), key[0], key[1]))
     return sorted(out)
 
@@ -884,10 +1008,13 @@ def compare(res, side, ids, mobs):
         # (after a transport loss the controller lives on without its host: not compared)
         return f'controller table: model {mctl}, implementation {ictl}'
     mr = sorted((r[1] if isinstance(r, tuple) and r[0] == 'str' else r, k[0], k[1]) for r, k in mregs)
-    if mr != impl_regs(final, h):
-        return f'registries at the end: model {mr}, implementation {impl_regs(final, h)}'
-    if res['post'][side] is not None and mr != impl_regs(res['post'][side], h):
-        return f'registries right after the fan-out: model {mr}, implementation {impl_regs(res["post"][side], h)}'
+    if mr != impl_regs(final):
+        return f'registries at the end: model {mr}, implementation {impl_regs(final)}'
+    mrh = [x for x in mr if x[1] == h]
+    if res['post'][side] is not None and mrh != impl_regs(res['post'][side], h):
+        # (only the connection under test: a transport loss may follow its disconnection)
+        return (f'registries of handle {h} right after the fan-out: model {mrh}, '
+                f'implementation {impl_regs(res["post"][side], h)}')
     codes = dict((wid, code) for wid, code in mwaiters)
     by_name = {x['name']: x for x in res['waiters'] if x['side'] == side}
     for name, wid in ids:
@@ -905,12 +1032,22 @@ def _pool_map(cases):
     return [run_case(*c) for c in cases]
 
 
-def cut_points(rng, n, full):
-    if full or n <= 14:
+def cut_points(rng, n, limit):
+    """every k when there are at most `limit`, else both ends and random ones in between"""
+    if n + 1 <= limit:
         return list(range(0, n + 1))
     ks = {0, 1, 2, 3, n - 2, n - 1, n}
-    while len(ks) < 14:
+    while len(ks) < limit:
         ks.add(rng.range(4, n - 3))
+    return sorted(ks)
+
+
+def aux_cut_points(rng, n, limit):
+    if n + 1 <= limit:
+        return list(range(0, n + 1))
+    ks = {1, n // 2}
+    while len(ks) < min(limit, n + 1):
+        ks.add(rng.range(0, n))
     return sorted(ks)
 
 
@@ -934,7 +1071,7 @@ def campaign(ctx, full, procs=None):
     cases = []
     seen = set()
     for c in load_corpus():
-        if c[0] in PROCEDURES and c not in seen:
+        if c[0].replace('+aux', '') in PROCEDURES and c not in seen:
             seen.add(c)
             cases.append(c)
     for p, base in zip(procs, bases):
@@ -949,13 +1086,21 @@ def campaign(ctx, full, procs=None):
             ctx.violation(sig, text, {'proc': p, 'cut': None, 'k': None})
         if any(x['final'] != 'result' for x in base['waiters']) and p not in OPEN_ENDED:
             ctx.disagree('uncut procedure does not end with a result', {'proc': p}, 'result', base['waiters'])
-        ks = cut_points(ctx.rng, base['packets'], full)
+        ks = cut_points(ctx.rng, base['packets'], 10 ** 6 if full else ctx.n(14, 10 ** 6))
         for cut in CUTS:
             for k in ks:
                 c = (p, cut, k)
                 if c not in seen:
                     seen.add(c)
                     cases.append(c)
+        if not PROCEDURES[p][0] and p not in NO_AUX:
+            # the same procedure while stack 0 has a second, busy link to a third stack
+            for cut in CUTS:
+                for k in aux_cut_points(ctx.rng, base['packets'], 10 ** 6 if full else ctx.n(2, 10 ** 6)):
+                    c = (p + '+aux', cut, k)
+                    if c not in seen:
+                        seen.add(c)
+                        cases.append(c)
     results = _pool_map(cases)
     exprs, wanted = [], []
     for res in results:
@@ -1086,6 +1231,9 @@ def regen(ctx):
     from translate import c16_registries as tr
     found = tr.scan(ctx.repo)
     ctx.write_gen('C16Cleanup', tr.render(found))
+    sh = tr.shapes(ctx.repo)
+    ctx.write_gen('C16Shapes', tr.render_shapes(sh))
+    ctx.extra['shape_tokens'] = sum(len(t) for _, t in sh)
     ctx.extra['registries_found'] = [list(x) for x in found]
     ctx.obligations.append({'name': 'translator: every container attribute of the 7 classes classified '
                                     f'({len(found)} connection-keyed registries)', 'ok': True})
